@@ -422,8 +422,9 @@ func (p *ReverseProxy) clusterInvoke(srv *BfeServer, cluster *bfe_cluster.BfeClu
 			allowRetry = checkAllowRetry(cluster.RetryLevel(), outreq)
 
 			// if error is caused by backend server
-			rerr := err.(bfe_http.WriteRequestError)
-			if !rerr.CheckTargetError(request.RemoteAddr) {
+			// (err is bfe_http.WriteRequestError or bfe_fcgi.WriteRequestError)
+			rerr, ok := err.(interface{ CheckTargetError(net.Addr) bool })
+			if !ok || !rerr.CheckTargetError(request.RemoteAddr) {
 				backend.OnFail(cluster.Name)
 			}
 
